@@ -331,7 +331,7 @@ impl Run {
         // shrink terms
         for i in 0..n {
             for j in 0..self.ops[i].t.len() {
-                let la = ["C03", "C14", "C15", "C08R", "C11R", "C06R", "C13R", "C07S", "C05R", "C09R"].contains(&self.check.as_str());
+                let la = ["C03", "C14", "C15", "C08R", "C11R", "C06R", "C13R", "C07S", "C05R", "C09R", "C20A"].contains(&self.check.as_str());
                 for s in shrink_tm(&self.ops[i].t[j], la) {
                     let mut r = self.clone();
                     r.ops[i].t[j] = s;
